@@ -72,53 +72,53 @@ func init() {
 		"UnmarshalBinary of all 16 types and ReadPacket are executed on fully symbolic bytes; every slice/index/make bounds check of the compiled code is a fork whose failing side is asked of the solver, so a reachable runtime panic yields a concrete input. T-mode: valid frames with a 1-2 byte unconstrained window at every offset and every prefix of valid frames (remaining length kept and adjusted). ReadPacket must return exactly one of packet and error.",
 		aQuick+"; windows of 1 byte (2 bytes for types other than CONNECT/CONNACK/PUBLISH) over small valid frames of every type; all prefixes", aThor+"; windows of 1 and 2 bytes", outA)
 	meta("C05", "model_checking",
-		"The explorations of C04 with the engine's step meter and allocation meter as unwinding assertions: every path must finish within 3000*(N+4) library SSA instructions and 64*(N+4)+4096 bytes (+ the declared remaining length for ReadPacket); there is no silent unwinding limit, exhausting a budget is the violation. Returned (and half-built) packets must not hold more list elements than the frame has bytes. Extra family: SUBSCRIBE/UNSUBSCRIBE/SUBACK/UNSUBACK payload sections of N arbitrary bytes.",
+		"The explorations of C04 with the engine's step meter and allocation meter as unwinding assertions: every path must finish within 3000*(N+4) library SSA instructions and 64*(N+4)+4096 bytes (+ the declared remaining length for ReadPacket); there is no silent unwinding limit, exhausting a budget is the violation. Returned (and half-built) packets must not hold more list elements than the frame has bytes. Extra families: SUBSCRIBE/UNSUBSCRIBE/SUBACK/UNSUBACK payload sections of N arbitrary bytes; valid frames with 8, 48 and 96 user properties / list elements (will user properties included) decoded under the same linear budgets, where quadratic decoding shows (confirmed natively through runtime.MemStats).",
 		aQuick+"; list payloads of 0..7 bytes", aThor+"; list payloads of 0..10 bytes", outA+"; 'proportional' is checked as these fixed linear budgets (a quadratic algorithm with a small constant would pass at these sizes)")
 	meta("C06", "model_checking",
-		"One ReadPacket call on a frame followed by three unconstrained trailing bytes, from a counting contiguous reader: the number of bytes consumed must be exactly the frame, on acceptance and on content rejection; the call is repeated on a second stream that differs only in the trailing bytes (fresh symbols) and outcome and every accessor must be equal — a two-run non-interference check decided by the solver. Plus 1-3 frame concatenations read to io.EOF. One call from an arbitrary position is the inductive step for arbitrary sequences.",
+		"One ReadPacket call on a frame followed by three unconstrained trailing bytes, from a counting contiguous reader: the number of bytes consumed must be exactly the frame, on acceptance and on content rejection; the call is repeated on a second stream that differs only in the trailing bytes (fresh symbols) and outcome and every accessor must be equal — a two-run non-interference check decided by the solver. Plus 1-3 frame concatenations read to io.EOF, in which every packet is kept and re-checked after the later calls (a recycled read buffer shows there), every type followed by a longer frame and by a frame of its own type, and frames of 200, 5000 and 20000 bytes followed by trailing bytes. One call from an arbitrary position is the inductive step for arbitrary sequences.",
 		"A-mode: first byte symbolic, bodies 0..5 bytes; S-mode small valid frames of every type incl. remaining length 0; 8 sequences", "A-mode bodies 0..7; 12 sequences", outA)
 	meta("C07", "model_checking",
-		"One symbolic frame is read twice: contiguously and through a reader whose chunk size per Read is a symbolic integer constrained only by the io.Reader contract (0..min(len(p), rest), at most Z consecutive (0,nil) results, last chunk as (n,io.EOF) or (n,nil)+(0,io.EOF) chosen by a symbolic boolean); the solver enumerates exactly the feasible schedules. Same acceptance and same accessor values are asserted.",
+		"One symbolic frame is read twice: contiguously and through a reader whose chunk size per Read is a symbolic integer constrained only by the io.Reader contract (0..min(len(p), rest), at most Z consecutive (0,nil) results, last chunk as (n,io.EOF) or (n,nil)+(0,io.EOF) chosen by a symbolic boolean); the solver enumerates exactly the feasible schedules. Same acceptance and same accessor values are asserted. Frames too long for all compositions are delivered with every pair (thorough: triple) of symbolic split points, and 300- and 20000-byte frames under four fixed schedules (byte by byte, an empty read before every byte, 3-byte chunks, last byte together with io.EOF).",
 		"A-mode whole frames of 2..5 bytes (Z=0; Z=1 up to 4 bytes); S-mode minimal valid frame of every type, Z=0", "A-mode 2..6 bytes, Z in {0,1}", outA+"; more than one consecutive empty read")
 	meta("C08", "model_checking",
-		"A proper prefix of a symbolic frame is delivered (cut offset symbolic: every offset of every frame shape), then the reader returns (0,io.EOF) forever, or (0,E), or the last chunk together with E. ReadPacket must return a nil packet and an error, errors.Is(err,E) for failures, errors.Is(err,io.EOF) for a cut at offset 0.",
+		"A proper prefix of a symbolic frame is delivered (cut offset symbolic: every offset of every frame shape), then the reader returns (0,io.EOF) forever, or (0,E), or the last chunk together with E. ReadPacket must return a nil packet and an error, errors.Is(err,E) for failures, errors.Is(err,io.EOF) for a cut at offset 0. Frames of 200 and 20000 bytes are cut at positions around the header, 127/128, 16383..16400, the middle and the end.",
 		"A-mode whole frames of 2..5 bytes; S-mode small valid frames of every type; 3 failure modes", "A-mode 2..7 bytes", outA+"; prefix delivered contiguously (fragmented delivery of the prefix is C07's subject)")
 	meta("C09", "model_checking",
 		"(a) valid frames from the reference encoder are cut at every position strictly inside a unit (2/4-byte integer, length-prefixed string, variable byte integer, property identifier + value), remaining length set to the shortened size: must be rejected; A-mode: on N arbitrary bytes the reference decoder classifies and TRUNCATED/5-byte-varint/bad-boolean/undefined-property frames must be rejected. (b) a symbolic 5-byte variable byte integer at the remaining length (15 types), every property length, both subscription identifier positions. (c) every boolean property with a symbolic value >= 2 (254 values, one query). (d) a symbolic undefined identifier (229 values, one symbol) in the property section of every type, followed by 0,1,2,4 arbitrary bytes.",
 		sQuick+" (cuts: strings up to 128 bytes); "+aQuick+" (classifier: one byte less)", sThor+"; "+aThor, outS+"; "+outA+"; the raw PUBLISH payload is exempt from (a) as the property states")
 	meta("C10", "model_checking",
-		"WriteTo of every C01 shape (plus QoS 3, empty lists, zero values, Undefined) against three writer stubs: accept all, fail before writing with error E, accept a symbolic k < frame length and return (k,E). Exactly one Write call, bytes are exactly one frame by their own remaining length, returned count and error are the writer's, and the integer String() prints before ' bytes' (a rope query on the symbolic fmt result) equals the frame length.",
+		"WriteTo of every C01 shape (plus QoS 3, empty lists, zero values, Undefined) against three writer stubs: accept all, fail before writing with error E, accept a symbolic k < frame length and return (k,E). Exactly one Write call, bytes are exactly one frame by their own remaining length, returned count and error are the writer's, and the integer String() prints before ' bytes' (a rope query on the symbolic fmt result) equals the frame length. Also: write and render, apply one setter, write again (stale cached sizes); 5000- and 70000-byte packets against writers that accept only the first k bytes for every k < 40, the middle and the end.",
 		sQuick+" (short writes: frames without boundary-length fields)", sThor, outS)
 	meta("C11", "model_checking",
-		"The same packet is encoded seven times with String, Dump, WellFormed and all accessors in between; the engine runs map iterations in insertion order, reversed, alternating per Range execution (length pass vs write pass), and rotated by 1..3 — the iteration order is an explicit schedule parameter of the interpreter instead of the runtime's random choice. All encodings must be byte-identical and no accessor may change. A counterexample order is confirmed natively by encoding the packet 2000 times until two outputs differ.",
+		"The same packet is encoded seven times with String, Dump, WellFormed and all accessors in between; the engine runs map iterations in insertion order, reversed, alternating per Range execution (length pass vs write pass), and rotated by 1..3 — the iteration order is an explicit schedule parameter of the interpreter instead of the runtime's random choice. All encodings must be byte-identical and no accessor may change. A second process is modelled by re-running the package initialisers under another iteration order and rebuilding the packet from the same values. A counterexample order is confirmed natively by encoding the packet 2000 times until two outputs differ, a cross-process one by running the case in up to 24 processes.",
 		"C01 shapes without boundary-length fields; orders: insertion, reverse, alternating, rotations 1-3", "same plus scalar-presence forking for CONNECT/CONNACK", outS+"; iteration orders other than the six listed (not all n! permutations)",
 		"an encoder whose output depends on map iteration order differs between insertion order and at least one of reverse / alternating / rotated orders")
 	meta("C12", "model_checking",
 		"Every public setter/adder (symbolic arguments, strings of length 0 and 1) is applied (a) to a packet already built with symbolic values — set-after-set from an arbitrary API-reachable state — and (b) in sequences of two (thorough: three) from a fresh packet; after every call all accessors are compared with a record-of-fields model kept by the harness (derived CONNECT flags, will bits, session present, PUBLISH bits included), and the frame then written is read by the reference decoder and compared with the model.",
 		"all setters x 2 pre-states x string length {0,1}; all pairs of setters per type (CONNECT/CONNACK: a third of the ordered pairs plus all repeats)", "all ordered pairs and k1,k2,k1 triples", "histories longer than 3; string arguments longer than 1 byte")
 	meta("C13", "other",
-		"Solver-based symbolic execution does not explore goroutine interleavings. What is decided on the real code is the premise of the lemma 'operations that perform no write to memory reachable by another goroutine cannot race': after the packet exists, every object allocated so far and all package-level variables are marked shared; WriteTo, String, Dump, WellFormed, all accessors and a ReadPacket on a private stream are executed on all symbolic paths and every Store, MapUpdate, in-place append and copy into a shared object is counted by the interpreter; the count must be 0 on every feasible path (infeasible paths are pruned by the solver). With no shared writes every interleaving of such calls is race-free and each WriteTo computes the sequential result.",
+		"Solver-based symbolic execution does not explore goroutine interleavings. What is decided on the real code is the premise of the lemma 'operations that perform no write to memory reachable by another goroutine cannot race': after the packet exists, every object allocated so far and all package-level variables are marked shared; WriteTo, String, Dump, WellFormed, all accessors and a ReadPacket on a private stream are executed on all symbolic paths and every Store, MapUpdate, in-place append and copy into a shared object is counted by the interpreter; the count must be 0 on every feasible path (infeasible paths are pruned by the solver). sync.Pool is modelled (Get is a decision, memory that was Put must not be used afterwards). Short frames of every type are read under the monitor (writes by a reader the library calls back count). With no shared writes every interleaving of such calls is race-free and each WriteTo computes the sequential result. Findings are confirmed natively by running the operations from 8 goroutines in a -race build.",
 		"C01 shapes without boundary-length fields, built and decoded packets; a will message shared between a CONNECT and direct use", "same plus scalar-presence forking", outS+"; interleavings are not enumerated (sufficient condition only); synchronisation primitives are not modelled (a tree that introduces them is reported as inconclusive, not as a violation)")
 	meta("C14", "model_checking",
-		"Aliasing: a packet is decoded (UnmarshalBinary of all 16 types on arbitrary bytes and on valid bodies; ReadPacket), all accessors are snapshotted, then every byte of the input slice is overwritten with a fresh symbolic byte and the solver is asked whether any accessor can change. Interference: two packets are decoded from independent symbolic frames; every setter, WriteTo, String and Dump run on the first; the second's accessors must be unchanged, no package-level object may be written (interpreter monitor), and decoding the first frame again must give the first result.",
+		"Aliasing: a packet is decoded (UnmarshalBinary of all 16 types on arbitrary bytes and on valid bodies; ReadPacket), all accessors are snapshotted, then every byte of the input slice is overwritten with a fresh symbolic byte and the solver is asked whether any accessor can change. Interference: two packets are decoded from independent symbolic frames; every setter, WriteTo, String and Dump run on the first; the second's accessors must be unchanged, no package-level object may be written (interpreter monitor), and decoding the first frame again must give the first result. Further: decoding into packets that already hold data (NewConnect(), slices shared through setters, a will kept from an earlier decode), a PUBLISH kept while N arbitrary bytes are decoded as any type, and a packet kept while the next frame of the same stream is read.",
 		aQuick+" (two bytes less); "+sQuick+" (strings up to 128 bytes)", aThor+"; "+sThor, outS+"; "+outA)
 	meta("C15", "model_checking",
-		"The unexported variable-byte-integer codec (fill, width, UnmarshalBinary, ReadFrom) and buffer.get are executed symbolically. Encoding: one symbolic 32-bit value constrained to 0..268435455, compared byte for byte with shift/mask arithmetic written in the harness; the encoder loop forks into the four size classes and each class is one solver query over all its values, so the whole 2^28 domain is decided. Decoding: all byte sequences of length 0..5 with every byte symbolic; both decoders must agree with a specification reading.",
+		"The unexported variable-byte-integer codec (fill, width, UnmarshalBinary, ReadFrom) and buffer.get are executed symbolically. Encoding: one symbolic 32-bit value constrained to 0..268435455, compared byte for byte with shift/mask arithmetic written in the harness; the encoder loop forks into the four size classes and each class is one solver query over all its values, so the whole 2^28 domain is decided. Decoding: all byte sequences of length 0..5 with every byte symbolic; both decoders must agree with a specification reading; decoding into a receiver that already holds a value must overwrite it.",
 		"value: all 2^28; byte sequences: every length 0..5, all bytes symbolic; subscription identifier 1..268435455 through SetSubscriptionID/WriteTo/ReadPacket",
 		"same (the domain is already complete); plus sequences of length 6 and 7",
 		"values above 268435455 handed to the encoder (not representable in MQTT)")
 	meta("C16", "model_checking",
-		"The first byte is one symbolic byte (all 256 values); the dispatch forks on the type nibble and for each type a valid body from the reference encoder (minimal, remaining length 0 where allowed, richer) follows. The dynamic type must match the nibble, Undefined must carry the body, PUBLISH must report DUP/QoS/RETAIN of the byte, and writing the decoded packet must reproduce the byte.",
+		"The first byte is one symbolic byte (all 256 values); the dispatch forks on the type nibble and for each type a valid body from the reference encoder (minimal, remaining length 0 where allowed, richer) follows. The dynamic type must match the nibble, Undefined must carry the body, PUBLISH must report DUP/QoS/RETAIN of the byte, and writing the decoded packet must reproduce the byte; two frames of one type with different flag bits are read from one stream and the first packet, kept, must still reproduce its own byte.",
 		"256 first bytes x 3 body sets", "same", "PUBLISH with both QoS bits set may be rejected (malformed); if accepted its flags are checked")
 	meta("C17", "model_checking",
-		"Publish (topic length 0..2, topic alias, QoS 0..3, packet identifier symbolic), Subscribe (0..2 filters of length 0..1, a symbolic option byte per filter, subscription identifier over the whole non-negative int range or unset) and TopicFilter are built through the API and decoded from the wire; WellFormed() != nil must equal the documented predicate written out in the harness, and String() must contain the literal 'malformed!' exactly then (a rope query on format-literal text; contents are assumed free of '!').",
+		"Publish (topic length 0..2, topic alias, QoS 0..3, packet identifier symbolic), Subscribe (0..2 filters of length 0..1, a symbolic option byte per filter, subscription identifier over the whole non-negative int range or unset) and TopicFilter are built through the API and decoded from the wire; WellFormed() != nil must equal the documented predicate written out in the harness, and String() must contain the literal 'malformed!' exactly then (a rope query on format-literal text; contents are assumed free of '!'). Topics of 65535, 65536 and 131072 bytes count as non-empty.",
 		"all values of the scalar fields; topic length 0,1,2; 0-2 filters", "same plus two filters with subscription identifier", "filters and topics longer than 2 bytes (WellFormed only looks at emptiness)")
 	meta("C18", "model_checking",
-		"Non-interference by self-composition: two CONNECT packets are built from the same symbolic values except user name and password, which are independent symbolic byte strings of equal concrete lengths; String() and Dump() of both are produced as ropes by the symbolic fmt model and compared piece by piece, symbolic pieces by a solver query for all values. Built through the API and decoded from the wire; other fields are independent symbols the solver may set equal to the secrets.",
+		"Non-interference by self-composition: two CONNECT packets are built from the same symbolic values except user name and password, which are independent symbolic byte strings of equal concrete lengths; String() and Dump() of both are produced as ropes by the symbolic fmt model and compared piece by piece, symbolic pieces by a solver query for all values. Built through the API and decoded from the wire; other fields are independent symbols the solver may set equal to the secrets. Damaged frames: a concrete CONNECT with two different concrete credential pairs and the same 1-2 unconstrained bytes at every offset in front of the credentials; whenever both are accepted with the credentials intact they must render identically.",
 		"credential lengths {1,2,9,10} (equal pairs and 1+10, 2+9); minimal CONNECT and CONNECT with all properties, user property and will", "all 16 length pairs, two more shapes", "credential lengths other than 1, 2, 9, 10",
 		"fmt renders as a function of its operands (the rope model)")
 	meta("C19", "model_checking",
-		"String() and Dump() are executed symbolically on zero values and fresh packets of all types, on packets under construction (setter sequences), on the receivers of UnmarshalBinary on arbitrary bytes whether or not decoding succeeded, and on packets ReadPacket returns; reaching a panic or exhausting the step budget inside a renderer is the violation. The byte renderings (reason codes, first byte, CONNECT flags, CONNACK flags, subscription options) are driven with one symbolic byte each, every table index bounds-checked by the solver.",
+		"String() and Dump() are executed symbolically on zero values and fresh packets of all types, on packets under construction (setter sequences), on the receivers of UnmarshalBinary on arbitrary bytes whether or not decoding succeeded, and on packets ReadPacket returns; reaching a panic or exhausting the step budget inside a renderer is the violation. The byte renderings (reason codes, first byte, CONNECT flags, CONNACK flags, subscription options) are driven with one symbolic byte each, every table index bounds-checked by the solver; values outside MQTT's ranges that the setters accept (any 64-bit subscription identifier, any QoS byte) are rendered and written too. Renderer jobs run under a 40000-instruction budget.",
 		"UnmarshalBinary bodies up to N_max-4 per type, ReadPacket streams up to 4 bytes, setter pairs, 5 byte renderings", "bodies up to N_max-3, streams up to 5 bytes", outA,
 		"fmt itself does not panic or block")
 	indirectHarness["ZZ_C11_det"] = Indirect{"ZZ_C11_native", "assert"}
@@ -293,13 +293,14 @@ func jobsFor(prop, tier string) []*Job {
 		}
 		for t := 1; t <= 15; t++ {
 			shapes := smallWireShapes(t, false)
-			if !thorough {
-				shapes = shapes[:1]
-			}
-			for i, sh := range shapes {
-				add("frag/S/"+tn(t), "ZZ_C07_smode", []string{"frag"}, append([]int{0}, sh.Args()...)...)
-				if thorough && i == 0 {
-					add("frag/S/"+tn(t), "ZZ_C07_smode", []string{"frag"}, append([]int{1}, sh.Args()...)...)
+			// all compositions of the minimal valid frame
+			add("frag/S/"+tn(t), "ZZ_C07_smode", []string{"frag"}, append([]int{0}, shapes[0].Args()...)...)
+			// richer frames: every pair (thorough: triple) of split points
+			for _, sh := range shapes[1:] {
+				add("splits/"+tn(t), "ZZ_C07_splits", []string{"frag"}, append([]int{0, 2}, sh.Args()...)...)
+				if thorough {
+					add("splits/"+tn(t), "ZZ_C07_splits", []string{"frag"}, append([]int{1, 2}, sh.Args()...)...)
+					add("splits/"+tn(t), "ZZ_C07_splits", []string{"frag"}, append([]int{0, 3}, sh.Args()...)...)
 				}
 			}
 		}
